@@ -466,7 +466,8 @@ func marshalTo(read *thrift.BinaryProtocol, write *thrift.BinaryProtocol, from *
 	switch t := to.Type(); t {
 	case thrift.STRUCT:
 		if from == to {
-			return nil
+			// identical descriptor: copy the value as it is
+			goto skip_val
 		}
 		var req *thrift.RequiresBitmap
 		if !opts.NotCheckRequireNess {
